@@ -43,7 +43,7 @@ def pool(thorough):
     S = []  # (kind, statement) ; statement = ("assert", expr) | ("or", [[expr..]..], costs|None)
     rels = [rel("<=", X, n(1)), rel(">=", X, n(3)), rel("<", X, Y), rel(">", X, n(1)), rel("==", X, n(2)), rel("!=", X, n(2)),
             rel("<=", add(X, Y), n(2)), rel(">=", sub(X, Y), n(1)), rel("==", Y, mul(n(2), X)), rel(">=", Y, n(2)), rel("<", Y, n(0)),
-            rel("!=", X, Y), rel("==", add(X, Y), n(3)), rel("<=", X, n(0)), rel(">", add(X, n(1)), Y)]
+            rel("!=", X, Y), rel("==", add(X, Y), n(3)), rel("<=", X, n(0)), rel(">", add(X, n(1)), Y), rel(">=", Y, n(5))]
     if thorough:
         rels += [rel(">=", mul(X, n(2)), add(Y, n(1))), rel("<", sub(X, Y, n(1)), n(0)), rel("==", X, Y), rel("!=", add(X, Y), n(2)), rel("<=", ("un", "-", X), n(-3))]
     for r in rels:
@@ -64,6 +64,10 @@ def pool(thorough):
     S.append(("or-stmt:multi", ("or", [[rel("==", X, n(1)), rel("==", Y, n(2))], [P]], None)))
     S.append(("or-stmt:cost", ("or", [[rel(">=", Y, n(5))], [rel("<=", Y, n(-5))]], [n(2), n(1)])))
     S.append(("or-stmt:bool", ("or", [[("un", "!", P)], [rel("<", X, Y), P]], None)))
+    # constraints with non-unit coefficients that are only created when their disjunct is chosen, i.e. after earlier
+    # statements have been propagated (and may have made x or y basic in the tableau)
+    S.append(("relation:>=", ("assert", rel(">=", sub(X, Y), n(4)))))
+    S.append(("or-stmt:scaled", ("or", [[rel("<=", mul(n(2), X), add(mul(n(3), Y), n(2)))], [rel(">=", mul(n(2), Y), add(X, n(20)))]], None)))
     if thorough:
         S.append(("or-stmt:3", ("or", [[rel("==", X, n(0))], [rel("==", X, n(1))], [rel("==", X, n(2))]], None)))
     return S
@@ -94,6 +98,24 @@ def generate(thorough):
             stmts = [S[i] for i in combo]
             k += 1
             progs.append(("cn%d" % k, program_text(stmts), {"stmts": stmts}))
+    # boxes: both variables bounded from both sides, a strict difference between them, and one disjunction whose two
+    # disjuncts are ORDERED pairs of bound statements (with and without costs): row-bound propagation over a row with
+    # coefficients of both signs happens below root level, with reasons that conflict analysis must keep
+    base = [("relation:>=", ("assert", rel(">=", X, n(4)))), ("relation:<=", ("assert", rel("<=", X, n(50)))),
+            ("relation:>=", ("assert", rel(">=", Y, n(0)))), ("relation:<=", ("assert", rel("<=", Y, n(50)))),
+            ("relation:>", ("assert", rel(">", X, Y)))]
+    bp = [rel(">=", Y, n(5)), rel("<=", Y, n(3)), rel("<=", X, n(5)), rel(">=", X, n(6))] + ([rel(">=", Y, X)] if thorough else [])
+    pairs = [(a, b) for a in bp for b in bp if a is not b]
+    for d1 in pairs:
+        for d2 in pairs:
+            if d1 == d2:
+                continue
+            for costs in (None, [n(1), n(2)]):
+                if not thorough and costs is None and (pairs.index(d1) + pairs.index(d2)) % 2:
+                    continue
+                stmts = base + [("or-stmt:box", ("or", [list(d1), list(d2)], costs))]
+                k += 1
+                progs.append(("cn%d" % k, program_text(stmts), {"stmts": stmts}))
     return progs
 
 
